@@ -9,7 +9,8 @@ import Nstd.Generated.Sha256Tables
   Hand written here: the control flow around them, mirroring the C++ code line by line
   (copy loops, the `j`/`i` loops of `Transform`, `WriteByteBlock`, the byte loop of `update`,
   the padding loop of `finalize` with its wrap-around block, the length loop, the digest
-  loop, `hmac`).  Loop counters that are plain array positions are `Nat`; `count` is the
+  loop, `hmac`).  Loop counters that are plain array positions are `Nat`; array writes go
+  through the checked `wr` (an out-of-range write destroys the array instead of being dropped); `count` is the
   `uint64` of the code (the `count << 3` wrap is part of the model).
 -/
 namespace Nstd.Sha
@@ -69,7 +70,7 @@ def init : Sha := reset { state := [], count := 0, buffer := List.replicate 64 0
 def updateLoop : List UInt8 → Nat → Sha → Sha
   | [], _, p => p
   | b :: rest, cur, p =>
-    let p := { p with buffer := p.buffer.set cur b, count := p.count + 1 }
+    let p := { p with buffer := wr p.buffer cur b, count := p.count + 1 }
     let cur := cur + 1
     if cur = 64 then updateLoop rest 0 (writeByteBlock p) else updateLoop rest cur p
 
@@ -87,7 +88,7 @@ def padLoop (cur : Nat) (p : Sha) : Nat × Sha :=
   else
     let c := cur % 64
     let p := if c = 0 then writeByteBlock p else p
-    padLoop (c + 1) { p with buffer := p.buffer.set c 0 }
+    padLoop (c + 1) { p with buffer := wr p.buffer c 0 }
 termination_by if cur ≤ 56 then 56 - cur else if cur ≤ 64 then 121 - cur else 200
 decreasing_by
   repeat' split
@@ -96,7 +97,7 @@ decreasing_by
 /-- `for (i = 0; i < 8; i++) { buffer[curBufferPos++] = (Byte)(lenInBits >> 56); lenInBits <<= 8; }` -/
 def lenLoop : Nat → Nat → UInt64 → List UInt8 → List UInt8
   | 0, _, _, buf => buf
-  | n + 1, cur, len, buf => lenLoop n (cur + 1) (len <<< 8) (buf.set cur (len >>> 56).toUInt8)
+  | n + 1, cur, len, buf => lenLoop n (cur + 1) (len <<< 8) (wr buf cur (len >>> 56).toUInt8)
 
 /-- the digest loop: four big-endian bytes per state word -/
 def digestOf (state : List UInt32) : List UInt8 :=
@@ -108,7 +109,7 @@ def digestOf (state : List UInt32) : List UInt8 :=
 def finalize (p : Sha) : List UInt8 × Sha :=
   let lenInBits := p.count <<< 3
   let cur := bufferPos p
-  let p := { p with buffer := p.buffer.set cur 0x80 }
+  let p := { p with buffer := wr p.buffer cur 0x80 }
   let r := padLoop (cur + 1) p
   let p := { r.2 with buffer := lenLoop 8 r.1 lenInBits r.2.buffer }
   let p := writeByteBlock p
